@@ -284,9 +284,21 @@ impl std::ops::Not for RowIdMask {
     type Output = Self;
 
     fn not(self) -> Self::Output {
-        Self {
-            block_list: self.allow_list,
-            allow_list: self.block_list,
+        match (self.allow_list, self.block_list) {
+            // NOT(all rows) selects nothing
+            (None, None) => Self::allow_nothing(),
+            // NOT(allow - block) blocks exactly the rows that were selected
+            (Some(mut allow_list), Some(block_list)) => {
+                allow_list -= &block_list;
+                Self {
+                    allow_list: None,
+                    block_list: Some(allow_list),
+                }
+            }
+            (allow_list, block_list) => Self {
+                block_list: allow_list,
+                allow_list: block_list,
+            },
         }
     }
 }
